@@ -20,7 +20,7 @@ func init() { register("C14", C14) }
 // release on all paths) and three structural conditions of the list invariants. Not decided: the
 // list invariants themselves (nonce continuity, retention), which are over runtime histories.
 func C14(p *engine.Prog, r *engine.Report) {
-	r.Explanation = "Lock discipline of the transaction pool, decided by must-hold locksets over the SSA CFG with callee summaries and entry locksets from all call sites: (R1) every field of TxPool, txMap, sortedTxs, shortHashTxMap, txKeeper and NonceCache that is written after construction/start-up has one lock held (write mode at writes) at every access; (R2) no lock is acquired again while held and the acquired-while-holding graph over the pool's locks is acyclic; (R3) no event publication, channel send or file I/O while pool.mutex / txMap locks / the nonce-cache lock are held; (R4) every function that takes one of these locks releases it on every return path (acquire wrappers excepted), and TxPool.add's flag-based deferred unlock mirrors the lock exactly; plus structural necessary conditions of the list invariants: (R5) TxPool.Remove removes the transaction from every index independently of the others (no removal is control-dependent on another container's lookup) and ResetTo removes every transaction of the applied block; (R6) in the block builder every increase of blockGas is dominated by the cap test on blockGas plus that same amount (what is checked is what is charged). Not decided: nonce continuity and retention of accepted transactions (value-level), absence of panics."
+	r.Explanation = "Lock discipline of the transaction pool, decided by must-hold locksets over the SSA CFG with callee summaries and entry locksets from all call sites: (R1) every field of TxPool, txMap, sortedTxs, shortHashTxMap, txKeeper and NonceCache that is written after construction/start-up has one lock held (write mode at writes) at every access; (R2) no lock is acquired again while held and the acquired-while-holding graph over the pool's locks is acyclic; (R3) no event publication, channel send or file I/O while pool.mutex / txMap locks / the nonce-cache lock are held; (R4) every function that takes one of these locks releases it on every return path (acquire wrappers excepted), and TxPool.add's flag-based deferred unlock mirrors the lock exactly; plus structural necessary conditions of the list invariants: (R5) TxPool.Remove removes the transaction from every index independently of the others (no removal is control-dependent on another container's lookup) and ResetTo removes every transaction of the applied block; (R6) in the block builder every increase of blockGas is dominated by the cap test on blockGas plus that same amount (what is checked is what is charged); (R7) the lazy caches of the read-only state the pool validates against: a getter of StateDB/IdentityStateDB that publishes a loaded object through a setter storing field F under the state lock reads F under that lock (sibling agreement of the eight lazy getters). Not decided: nonce continuity and retention of accepted transactions (value-level), absence of panics."
 	r.Assumptions = []string{"lock identity is per struct type and field (instances conflated)", "function values registered with Subscribe/AfterFunc or started with go run with no lock held; closures passed to ordinary calls run synchronously under the creator's locks", "TxPool.Initialize / txKeeper loading run during Node start-up before the pool is shared"}
 	la := lockAnalysis(p)
 
@@ -77,9 +77,7 @@ func C14(p *engine.Prog, r *engine.Report) {
 
 	c14R5(p, r)
 	c14R6(p, r)
-	if os.Getenv("VERIF_C14_R7") != "" { // armed once defect D10 is triaged
-		c14R7(p, r, la)
-	}
+	c14R7(p, r, la)
 	if os.Getenv("VERIF_C14_STATEDB") != "" {
 		acc2 := fieldAccesses(p, la, map[string]bool{"StateDB": true, "IdentityStateDB": true, "AppState": true}, initPhase)
 		guardedBy(p, r, "C14-probe", acc2, nil)
